@@ -1,5 +1,5 @@
 #!/bin/bash
 # runs every claimed check at several seeds (quick tier) and prints one line per run
 HERE=$(cd $(dirname $0)/.. && pwd); cd $HERE
-PROPS=$(python3 -c "import json;print(' '.join(c['property_id'] for c in json.load(open('MANIFEST.json'))['checks']))")
+PROPS=${PROPS:-$(python3 -c "import json;print(' '.join(c['property_id'] for c in json.load(open('MANIFEST.json'))['checks']))")}
 for s in ${SEEDS:-2 3 4 5 6}; do for p in $PROPS; do echo "seed=$s $(VERIF_SEED=$s VERIF_PAR=${VERIF_PAR:-6} VERIF_NO_EVIDENCE=1 ./check $p --tier ${TIER:-quick} 2>&1 | tail -1)"; done; done
